@@ -47,6 +47,10 @@ Cases(dt, dims) ==
    /\ P(CaseOf([Proto(dt, dims, "typed", n, 0, <<>>, 0) EXCEPT !.raw = Flatten([k \in 1..(n + 1) |-> ElemOf(dt, k + 1)])], <<dt, "typed", "both_fields">>))
    /\ (Len(dims) >= 1 => P(CaseOf([Proto(dt, dims, "raw", n, 0, <<>>, 0) EXCEPT !.dims = [dims EXCEPT ![1] = -dims[1]]], <<dt, "raw", "negative_dim">>)))
    /\ (Len(dims) >= 1 => P(CaseOf([Proto(dt, [dims EXCEPT ![1] = 0], "raw", 0, 0, <<>>, 0) EXCEPT !.dims = [dims EXCEPT ![1] = 0]], <<dt, "raw", "zero_dim">>)))
+   \* a zero extent with a payload that is not empty: one element, and one element followed by a stray byte
+   /\ (Len(dims) >= 1 => /\ P(CaseOf(Proto(dt, [dims EXCEPT ![1] = 0], "raw", 1, 0, <<>>, 0), <<dt, "raw", "zero_dim", "one_element_payload">>))
+                         /\ P(CaseOf(Proto(dt, [dims EXCEPT ![1] = 0], "raw", 1, 0, <<9>>, 0), <<dt, "raw", "zero_dim", "ragged_payload">>))
+                         /\ P(CaseOf(Proto(dt, [dims EXCEPT ![1] = 0], "typed", 1, 0, <<>>, 0), <<dt, "typed", "zero_dim", "one_element_payload">>)))
    \* every non-empty subset of the dims negated (an even number of negative dims has the positive product of the payload)
    /\ \A neg \in (SUBSET (1..Len(dims))) \ {{}} :
          \A enc \in {"raw", "typed"} :
